@@ -264,7 +264,7 @@ var protocolNames = map[string]bool{
 	"RecordSuccess": true, "RecordFailure": true, "RecordError": true, "recordSuccess": true, "recordFailure": true, "recordResult": true,
 	"tryAcquirePermit": true, "checkThresholdAndReleasePermit": true, "open": true, "close": true, "halfOpen": true, "Open": true, "Close": true, "HalfOpen": true, "transitionTo": true,
 	"newClosedState": true, "newOpenState": true, "newHalfOpenState": true, "newStats": true, "newCountingStats": true, "newTimedStats": true,
-	"currentBucket": true, "remove": true, "reset": true, "setNext": true, "state": true,
+	"currentBucket": true, "setNext": true, "state": true,
 	"executionCount": true, "failureCount": true, "failureRate": true, "successCount": true, "successRate": true,
 	"bodyReader": true, "MergeContexts": true, "FailureResult": true, "WithDone": true, "WithFailure": true, "DelayFunc": true,
 	"Builder": true, "RetryPolicyBuilder": true, "BuilderWithFunc": true, "BuilderWithResult": true, "BuilderWithError": true,
